@@ -194,7 +194,7 @@ fn mutate(rng: &mut Rng, b: &[u8], other: &[u8]) -> (Vec<u8>, String) {
 
 
 /// parse a plaintext block stream (as far as it goes) into (start, end) byte ranges of blocks
-fn block_ranges(inner: &[u8]) -> Vec<(usize, usize, u8)> {
+pub fn block_ranges(inner: &[u8]) -> Vec<(usize, usize, u8)> {
     let mut v = vec![];
     let mut o = 0usize;
     while o < inner.len() {
